@@ -15,7 +15,7 @@ ANCHORS = ['mpilot/libraries/eems/fuzzy.py:FuzzyOr.execute', 'mpilot/libraries/e
 LEVEL = "exploration"
 RULE = ("operator x parameter x input-order x layout cases; n<=3 inputs enumerate the complete 18^n value/missing lattice as "
         "array cells (rank 2-3 shapes also with inputs in Fortran-order / strided / negative-stride memory), n=4,5 sample cell tuples; a case is distinct by (operator, n, params, layout rank, order class)")
-REQUIRED_COUNTERS = ["operators_in_command_files", "other_case_spellings_of_the_choice", "inherited_fuzziness_producer_cases", "category_producer_cases", "direct_execute_calls", "command_object_input_calls", "ref_postconditions", "law_checks", "cells_compared", "repeated_field_cases", "mixed_dtype_cases", "saturated_field_cases", "memory_layout_cases", "plain_ndarray_cases", "large_rasters_checked", "real_producer_cases", "program_copies_checked"]
+REQUIRED_COUNTERS = ["operators_in_written_out_programs", "operators_in_command_files", "other_case_spellings_of_the_choice", "inherited_fuzziness_producer_cases", "category_producer_cases", "direct_execute_calls", "command_object_input_calls", "ref_postconditions", "law_checks", "cells_compared", "repeated_field_cases", "mixed_dtype_cases", "saturated_field_cases", "memory_layout_cases", "plain_ndarray_cases", "large_rasters_checked", "real_producer_cases", "program_copies_checked"]
 EXHAUSTIVE_NOTE = "complete {17 fuzzy values + missing}^n lattice for n = 1, 2, 3 in both tiers"
 ASSUMPTIONS = ["reference models in mpv/ref.py (exact rationals) are the EEMS definitions as stated in the property",
                "numpy masked-array primitives are trusted", "FuzzyXOr with one input, k outside 1..n and zero weight sums are don't-care"]
@@ -65,6 +65,9 @@ def param_sets(rng, op, n, quick):
             w[rng.randrange(n)] = 0
             sets.append(w)
             sets.append([rng.choice([1, 2.5]) for _ in range(n)])
+        # weights are relative: tiny ones and ones with many decimals are as good as any
+        sets.append([rng.choice([2e-7, 6e-7, 1e-7, 3e-7]) for _ in range(n)])
+        sets.append([rng.choice([0.1234567, 0.7654321, 1.0 / 3, 0.1 + 0.2]) for _ in range(n)])
         return [{"Weights": w} for w in sets]
     return [{}]
 
@@ -128,6 +131,11 @@ def cases(ctx):
             # crisp whole-number layers only, weights that are not whole numbers
             op, prm = "FuzzyWeightedUnion", {"Weights": [rng.choice([1.5, 0.5, 0.25, 0.75, 2.5]) for _ in range(n)]}
         yield {"kind": "sampled", "n": n, "op": op, "params": prm, "shape": [400], "order": order, "count": 400, "rseed": rng.randrange(10 ** 9), "dtypes": dts}
+    for r in range(ctx.n(6, 300)):
+        n = rng.choice([2, 3])
+        ws = [[2e-7, 6e-7, 1e-7], [0.1234567, 0.7654321, 0.5], [1e-9, 3e-9, 5e-9], [1.0 / 3, 2.0 / 3, 1.0 / 7], [0.0000004, 0.9999996, 0.3]][r % 5][:n]
+        yield {"kind": "savedweights", "n": n, "params": {"Weights": ws},
+               "cols": [[rng.choice([-1.0, -0.5, 0.0, 0.25, 0.75, 1.0, None]) for _ in range(12)] for _ in range(n)]}
     # a field that is fully true (or fully false) everywhere, listed before fields with missing cells
     for r in range(ctx.n(24, 1000)):
         n = rng.choice([2, 3, 4])
@@ -292,6 +300,14 @@ def finish(ctx):
 def run_case(ctx, case):
     if case["kind"] == "biglaw":
         return run_biglaw(ctx, case)
+    if case["kind"] == "savedweights":
+        # the weighted union in a program that was written out and loaded again: weights are relative, tiny ones and ones with
+        # many decimals count in full
+        cols = [[None if v is None else Fraction(v) for v in c] for c in case["cols"]]
+        want, scale = ref.MODELS["FuzzyWeightedUnion"](cols, case["params"])
+        ctx.feature(("savedweights", case["n"], repr(case["params"]["Weights"])[:40]))
+        _run_text(ctx, "FuzzyWeightedUnion", case["n"], case["params"], cols, want, scale, force_style=3)
+        return
     op, n, params, shape, order = case["op"], case["n"], case["params"], tuple(case["shape"]), case["order"]
     cols = _columns(case)
     total = len(cols[0])
@@ -412,7 +428,7 @@ V2NAME = {"FuzzyOr": "OR", "FuzzyAnd": "AND", "FuzzyNot": "NOT", "FuzzyUnion": "
 _text_calls = {"n": 0}
 
 
-def _run_text(ctx, op, n, params, cols, want, scale):
+def _run_text(ctx, op, n, params, cols, want, scale, force_style=None):
     """The operator in a command file over fields read from a table: under its MPilot name, and under its EEMS 2.0 name both in
     the 2.0 layout and with a result name in front."""
     import os
@@ -429,8 +445,8 @@ def _run_text(ctx, op, n, params, cols, want, scale):
         lines.append("F%d = CvtToFuzzy(InFieldName = R%d, TrueThreshold = 1, FalseThreshold = -1)" % (k, k))
     args = ["InFieldName = F0"] if op == "FuzzyNot" else ["InFieldNames = [%s]" % ", ".join("F%d" % k for k in range(n))]
     args += ["%s = %s" % (a_, "[%s]" % ", ".join(repr(x) for x in v_) if isinstance(v_, list) else (v_ if isinstance(v_, str) else repr(v_))) for a_, v_ in params.items()]
-    style = _text_calls["n"] % 3
-    if style == 0:
+    style = _text_calls["n"] % 4 if force_style is None else force_style
+    if style in (0, 3):
         lines.append("Res = %s(%s)" % (op, ", ".join(args)))
     elif style == 1:
         lines.append("Res = %s(%s)" % (V2NAME[op], ", ".join(args)))                       # the 2.0 name with a result name in front
@@ -440,14 +456,18 @@ def _run_text(ctx, op, n, params, cols, want, scale):
     ctx.count("operators_in_command_files")
     try:
         p_ = Program.from_source(text, working_dir=d)
+        if style == 3:
+            # ... written out by the program and loaded again
+            p_ = Program.from_source(p_.to_string(), working_dir=d)
+            ctx.count("operators_in_written_out_programs")
         p_.run()
         res = p_.commands["Res"].result
     except Exception as e:
-        ctx.fail("%s:in-a-command-file:raises-%s:%s" % (op, type(e).__name__, ["mpilot-name", "eems2-name-with-a-result-name", "eems2-layout"][style]), {"error": str(e)[:200], "line": lines[-1]})
+        ctx.fail("%s:in-a-command-file:raises-%s:%s" % (op, type(e).__name__, ["mpilot-name", "eems2-name-with-a-result-name", "eems2-layout", "written-out-and-loaded"][style]), {"error": str(e)[:200], "line": lines[-1]})
         return False
     bad = ref.compare(res, want, scale=scale, rel=1e-12)
     if bad:
-        ctx.fail("%s:%s:in-a-command-file" % (op, bad[0]), {"cell": bad[1], "got": bad[2], "want": bad[3], "line": lines[-1]})
+        ctx.fail("%s:%s:in-a-command-file%s" % (op, bad[0], ":written-out-and-loaded" if style == 3 else ""), {"cell": bad[1], "got": bad[2], "want": bad[3], "line": lines[-1]})
         return False
     return True
 
